@@ -29,6 +29,11 @@ OINT = _OI.create()
 G = z3.DeclareSort("G")
 coord = z3.Function("coord", G, INT, FL)
 
+_OG = z3.Datatype("OG")
+_OG.declare("GNone")
+_OG.declare("GSome", ("gv", G))
+OG = _OG.create()
+
 # ---- strings: a free term algebra (assumption: formatting is injective, see DESIGN 4.3) --------
 _S = z3.Datatype("Str")
 _S.declare("SLit", ("lit", INT))
@@ -52,7 +57,7 @@ def lit_table():
     return dict(_LITS)
 
 
-SORTS = {"int": INT, "bool": BOOL, "fl": FL, "str": STR, "g": G, "oint": OINT, "real": REAL}
+SORTS = {"int": INT, "bool": BOOL, "fl": FL, "str": STR, "g": G, "oint": OINT, "real": REAL, "og": OG}
 
 
 def fl_of_real(r):
